@@ -105,7 +105,7 @@ func bidx(c *Ctx, rule string, funcs []*ssa.Function, exempt map[string]string) 
 		lb.extra = cfacts
 		names := map[ssa.Value]string{}
 		for _, p := range f.Params {
-			names[p] = p.Name()
+			names[p] = pname(p)
 		}
 		ord := map[string]int{}
 		pkg := ""
